@@ -12,6 +12,10 @@ RULE = ("TLC checks LoadsNewest / NewestSurvives / RetainNamesNewest / Operators
         "order of the asynchronous write, delete and notify steps of overlapping publications and a crash after any storage "
         "operation; the schedules are forced onto the real snapshots.Store through a gated StorageLocation over a real "
         "LocalDirectory (restart = real LoadCheckpoint on that directory), notifications are delivered to real dkv.DBs; "
+        "up to 5 back-to-back checkpoints with their writes landing in every order are replayed against a subscriber that "
+        "receives only when the model delivers (unbuffered channel) and with the notification goroutines released in every "
+        "order; the job -> operator boundary (Forward / OpHandle) is replayed on the real jobs.Job with held "
+        "UpdateRetainedCheckpoints requests; "
         "directory states with up to three snapshot ids around base64 character-class boundaries are materialised and loaded")
 
 # (first id, span): windows of ids around the places where a character of the encoded name changes its
@@ -21,6 +25,10 @@ RULE = ("TLC checks LoadsNewest / NewestSurvives / RetainNamesNewest / Operators
 WINDOWS_QUICK = [(1, 23), (186, 12), (602, 12), (4088, 12)]
 WINDOWS_THOROUGH = [(1, 23), (24, 23), (180, 20), (598, 20), (1016, 16), (2040, 16), (4084, 20), (12280, 16), (38904, 16),
                     (65524, 20), (262136, 16), (16777200, 16)]
+
+
+# publication schedules without crashes and without the Remove steps (they stay parked)
+PIPE = [a for a in S.GOOD if a not in ("Restart", "Delete")]
 
 
 def out_of_order_notify(beh):
@@ -73,6 +81,30 @@ def run(c):
         raise vlib.MachineryError("no behaviour with overtaking notifications generated")
     cs = dict(cs, Pre_NotifyUnordered=False)  # nothing of it is a listed finding: the code must serialise or stay within the property
     res = S.replay(c, behs, cs, "adversarial notification order", Adversarial=True, WithDkv=True)
+    # 5b. the same, exhaustively for back-to-back checkpoints (Burst): every state of the graph in which notification goroutines
+    #     may overtake, two continuations each
+    behs, cs = S.cover(c, "back-to-back checkpoints, notification goroutines in any order", MaxLen=1000, StartId=1, IdSpan=4, MaxInFlight=3,
+                       MaxRestarts=0, Burst=True, Acts=PIPE, Pre_NotifyUnordered=True)
+    behs = S.per_prefix(behs, S.first_overtaking_send, 2 if quick else 6)
+    S.replay(c, behs, dict(cs, Pre_NotifyUnordered=False), "adversarial notification order, deep overlap", Adversarial=True, WithDkv=True)
+    # 5c. deep overlap: 4-5 back-to-back checkpoints, their writes landing in every order, a subscriber that is busy until the
+    #     model delivers (the store's channel is unbuffered, as in jobs.New)
+    for span, inflight, acts in (((4, 3, PIPE), (5, 4, PIPE)) if quick else ((4, 3, PIPE), (5, 4, PIPE), (4, 3, [a for a in S.GOOD if a != "Restart"]))):
+        behs, cs = S.cover(c, "back-to-back checkpoints, slow subscriber", MaxLen=1000, StartId=1, IdSpan=span, MaxInFlight=inflight,
+                           MaxRestarts=0, Burst=True, Acts=acts)
+        S.replay(c, behs, cs, "deep overlap, slow subscriber", SlowSub=True, WithDkv=True)
+    # 5d. the job -> operator boundary on the real jobs.Job (in-process cluster, held UpdateRetainedCheckpoints requests):
+    #     the model's own schedules, then those only a job forwarding concurrently admits (a slow request is overtaken)
+    S.exhaustive(c, "job -> operator requests (RpcMode)", MaxLen=1000, StartId=0, IdSpan=4, MaxInFlight=2, MaxRestarts=0, Burst=True, RpcMode=True,
+                 Acts=PIPE, Ops={"o1", "o2"}, Srs={"s1", "s2"})
+    S.must_break(c, "Pre_ForwardConcurrent", {"NoBad", "RetainNamesNewest"}, MaxLen=1000, StartId=0, MaxInFlight=2, MaxRestarts=0, Burst=True, RpcMode=True, Acts=PIPE)
+    for shape in (dict(IdSpan=4), dict(IdSpan=3, Ops={"o1", "o2"}, Srs={"s1", "s2"})):
+        kw = dict(dict(MaxLen=1000, StartId=0, MaxInFlight=2, MaxRestarts=0, Burst=True, RpcMode=True, Acts=PIPE), **shape)
+        behs, cs = S.cover(c, "job -> operator requests", **kw)
+        S.replay(c, behs, cs, "real jobs.Job, retention requests", harness="storejob")
+        behs, cs = S.cover(c, "job -> operator requests, concurrent forwarding", Pre_ForwardConcurrent=True, **kw)
+        behs = S.per_prefix(behs, S.first_concurrent_forward, 2 if quick else 8)
+        S.replay(c, behs, dict(cs, Pre_ForwardConcurrent=False), "real jobs.Job, overtaking retention requests", harness="storejob")
     # 6. directory states (1..3 snapshot ids per window) materialised on a real LocalDirectory + real LoadCheckpoint
     for start, span in (WINDOWS_QUICK if quick else WINDOWS_THOROUGH):
         behs, cs = S.dirstates(c, start, span)
@@ -80,7 +112,4 @@ def run(c):
 
 
 def replay(c, path):
-    payload = json.load(open(path))
-    payload["property"] = c.prop
-    res = vlib.run_harness("store", payload)
-    c.add_harness(res, payload, "replay " + path)
+    S.replay_file(c, path)
